@@ -7,7 +7,7 @@ from ..core import Disc, Subcheck, exc_detail, exc_key
 
 PROPERTY_ID = 'C10'
 LEVEL = 'exploration'
-RULE = ('Before the calls every proper string prefix of the exported path that is itself a path is exported as a bare object and withdrawn again (parents and look-alike siblings such as /a/b1 next to /a/b10). generated object classes (type()/exec): 1-3 interfaces declared on a base class and/or a subclass, 1-4 methods each '
+RULE = ('Exception kinds include `wrapper` (an exception carrying another Failure as subFailure, like defer.FirstError). Before the calls every proper string prefix of the exported path that is itself a path is exported as a bare object and withdrawn again (parents and look-alike siblings such as /a/b1 next to /a/b10). generated object classes (type()/exec): 1-3 interfaces declared on a base class and/or a subclass, 1-4 methods each '
         'with argument and return signatures from the type grammar, the same member on several interfaces, bound by '
         'dbus_<name> or by @dbusMethod, with or without a trailing dbusCaller parameter, implemented on base or subclass; '
         '1-6 calls per case, reference-encoded then parsed by parseMessage (flags included) and handed to '
@@ -234,6 +234,14 @@ def _exc_class(kind):
         # an exception that cannot even say what it is: __str__ returns no string (txdbus.bus.DError built without a
         # message does just that); the caller is owed its one error reply all the same
         return type('Unprintable', (Exception,), {'__str__': lambda self: None})
+    if kind == 'wrapper':
+        # an exception that carries another failure inside, as twisted's defer.FirstError does (`subFailure`): it is still
+        # THE exception the method failed with, and the reply is named after it
+        def _init(self, *a):
+            from twisted.python.failure import Failure
+            Exception.__init__(self, *a)
+            self.subFailure = Failure(KeyError('inner'))
+        return type('Wrapper', (Exception,), {'__init__': _init})
     if kind == 'nonascii':
         return type('Fehleré', (Exception,), {})
     if kind == 'none-name':
@@ -256,7 +264,7 @@ def _expected_error_name(kind):
     return {'plain': 'org.txdbus.PythonException.VerifFailure', 'named': 'org.verif.Error.Named',
             'badname': 'org.txdbus.InvalidErrorName', 'badname-format': 'org.txdbus.InvalidErrorName', 'nonascii': 'org.txdbus.InvalidErrorName',
             'none-name': 'org.txdbus.PythonException.NoneName', 'unprintable': 'org.txdbus.PythonException.Unprintable', 'nested': 'org.txdbus.PythonException.NestedFailure',
-            'local': 'org.txdbus.PythonException.LocalFailure'}[kind]
+            'local': 'org.txdbus.PythonException.LocalFailure', 'wrapper': 'org.txdbus.PythonException.Wrapper'}[kind]
 
 
 TEXTS = {'plain': 'it broke', 'empty': '', 'unicode': 'käput €', 'nul': 'bad\x00text',
@@ -656,7 +664,7 @@ def gen_case(draw, tier):
         outc['coro'] = draw(st.integers(0, 3)) == 0
         outc['reexport'] = kind in ('deferred', 'deferred-fail') and draw(st.integers(0, 2)) == 0
         if kind in ('raise', 'deferred-fail'):
-            outc['exc'] = draw(st.sampled_from(['plain', 'plain', 'named', 'badname', 'badname-format', 'nonascii', 'none-name', 'nested', 'local', 'unprintable']))
+            outc['exc'] = draw(st.sampled_from(['plain', 'plain', 'named', 'badname', 'badname-format', 'nonascii', 'none-name', 'nested', 'local', 'unprintable', 'wrapper']))
             outc['text'] = draw(st.sampled_from(['plain', 'plain', 'empty', 'unicode', 'nul', 'surrogate', 'format']))
         call['outcome'] = outc
         calls.append(call)
